@@ -8,11 +8,16 @@
   the C17 refinement and no-overflow theorems are proved) compute exactly what the source says now, for ALL limb
   values, INCLUDING where an overflow-checked build panics (`none`): a changed carry, shift, mask, product index or
   constant in the source breaks a proof obligation even if no sampled input reaches it.
-  Proof method: unfold the model's helpers (`carryR`, `mac`, …), re-associate the binds, then walk both straight-line
-  programs in lock step (`bind_walk`, Proofs/BindWalk.lean).
+  Proof method: walk both straight-line programs in lock step from the head, unfolding the model's helpers (`carryR`,
+  `mac`, …) as they come up (`bind_walk [helpers]`, Proofs/BindWalk.lean).
+  NOT tied: `scalar32::muladd` (sc_muladd, ~800 checked operations): the translation exists, the lock-step proof exceeds
+  the kernel's recursion depth; `square_repeatdly`, `is_nonzero`, `is_negative`, `ct_eq`, `maybe_swap_with`, `maybe_set`
+  (compositions of tied kernels) and `load_3i`/`load_4i` (fe/load.rs; the model's loads are used as they are).
 -/
 import CxVerif.Extracted.KernelsFe32
+import CxVerif.Extracted.KernelsScalar32
 import CxVerif.Impl.Fe32
+import CxVerif.Impl.Scalar32
 import CxVerif.Proofs.BindWalk
 namespace Cx.Props.C17.KernelTie
 set_option linter.unusedSimpArgs false
@@ -28,44 +33,45 @@ theorem negate_mut_src_eq_model (f : Fe) : negate_mut_src f = negate_mut f := rf
 set_option maxRecDepth 100000 in
 theorem mul_src_eq_model (f g : Fe) : mul_src f g = mul f g := by
   unfold mul_src mul mul_cols carry_mul
-  simp only [carryR, carryR19, castFe, Option.bind_eq_bind, Option.pure_def, Option.bind_assoc]
-  bind_walk
-  rfl
+  bind_walk [carryR, carryR19]
 
 set_option maxRecDepth 100000 in
 theorem square_src_eq_model (f : Fe) : square_src f = square f := by
   unfold square_src square sq_cols carry_mul
-  simp only [carryR, carryR19, castFe, Option.bind_eq_bind, Option.pure_def, Option.bind_assoc]
-  bind_walk
-  rfl
+  bind_walk [carryR, carryR19]
 
 set_option maxRecDepth 100000 in
 theorem square_and_double_src_eq_model (f : Fe) : square_and_double_src f = square_and_double f := by
   unfold square_and_double_src square_and_double sq_cols carry_mul
-  simp only [carryR, carryR19, castFe, Option.bind_eq_bind, Option.pure_def, Option.bind_assoc]
-  bind_walk
-  rfl
+  bind_walk [carryR, carryR19]
 
 set_option maxRecDepth 100000 in
 theorem mul_small_src_eq_model (f : Fe) (S0 : Nat) : mul_small_src f S0 = mul_small f S0 := by
   unfold mul_small_src mul_small carry_par
-  simp only [carryR, carryR19, castFe, Option.bind_eq_bind, Option.pure_def, Option.bind_assoc]
-  bind_walk
-  rfl
+  bind_walk [carryR, carryR19]
 
 set_option maxRecDepth 100000 in
 theorem from_bytes_src_eq_model (b : Bytes) (h : b.length = 32) : from_bytes_src b h = from_bytes b h := by
   unfold from_bytes_src from_bytes carry_par
-  simp only [carryR, carryR19, castFe, Option.bind_eq_bind, Option.pure_def, Option.bind_assoc]
-  bind_walk
-  rfl
+  bind_walk [carryR, carryR19]
 
 set_option maxRecDepth 100000 in
 theorem to_bytes_src_eq_model (f : Fe) : to_bytes_src f = to_bytes f := by
   unfold to_bytes_src to_bytes to_bytes_limbs
-  simp only [carryF32, qstep, Option.bind_eq_bind, Option.pure_def, Option.bind_assoc]
-  bind_walk
-  rfl
+  bind_walk [carryF32, qstep]
 
 end Fe32
+
+namespace Scalar32
+open Cx Cx.Impl.Scalar32 Cx.Extracted.KernelsScalar32
+open Cx.Impl.Fe32 (ck64 add64 sub64 mul64 shl64 shr u8of u8or)
+
+set_option maxRecDepth 100000 in
+/-- sc_reduce: the 24 loads, the reduction of the 24 limbs by L (`mac`/`msc` steps, rounded and floor carries), the pack -/
+theorem reduce_from_wide_bytes_src_eq_model (s : Vector UInt8 64) :
+    reduce_from_wide_bytes_src s = reduce_from_wide_bytes s := by
+  unfold reduce_from_wide_bytes_src reduce_from_wide_bytes
+  bind_walk [reduce_limbs, mac, msc, carryR, carryF]
+
+end Scalar32
 end Cx.Props.C17.KernelTie
